@@ -202,6 +202,16 @@ def _chunk(texts):
         if errs:
             continue
         valid += 1
+        # validated => the response shape is determined: every selected field exists on its parent type, composite fields have a selection and leaves have
+        # none (exactly what the rules FieldsOnCorrectType and ScalarLeafs establish - re-derived by the reference, independently of the library's traversal)
+        try:
+            from vf import ref_validate as RV
+            shape = sorted({v.rule for v in RV.validate(schema, parse(text)) if v.rule in ("FieldsOnCorrectType", "ScalarLeafs")})
+        except Exception:
+            shape = []
+        if shape:
+            fails.append(("validated:data-has-the-determined-shape", {"document": text, "rules": shape},
+                          "validation accepts a document whose response shape is not determined by its selection sets and the schema (%s)" % ", ".join(shape)))
         # validated => executing cannot go wrong
         from py_gql.lang import ast as A
         ops = [d for d in doc.definitions if isinstance(d, A.OperationDefinition)]
